@@ -88,7 +88,12 @@ func (r *c47Rand) intn(n int) int { return int(r.next() % uint64(n)) }
 
 // c47GenKeys makes n distinct 32-byte keys: random ones, range-split borders
 // (i*2^252-1, i*2^252), 0x00.., 0xff.., and neighbours sharing long prefixes.
-func c47GenKeys(r *c47Rand, n int, hostile bool) []common.Hash {
+//
+// tail is the number of trailing bytes that are never the only difference between two
+// keys: account keys use 1, because two account hashes sharing 63 nibbles (a 252-bit
+// keccak collision) would put an account leaf at depth 64, a path that the snap
+// protocol's path sets and ResolvePath read as "storage root of that account".
+func c47GenKeys(r *c47Rand, n int, hostile bool, tail int) []common.Hash {
 	seen := map[common.Hash]bool{}
 	var out []common.Hash
 	add := func(h common.Hash) {
@@ -120,7 +125,7 @@ func c47GenKeys(r *c47Rand, n int, hostile bool) []common.Hash {
 		case len(out) > 0 && r.intn(5) == 0:
 			// long shared prefix with an existing key
 			h = out[r.intn(len(out))]
-			h[31-r.intn(3)] ^= byte(r.intn(255) + 1)
+			h[31-tail-r.intn(3)] ^= byte(r.intn(255) + 1)
 		default:
 			for i := 0; i < 32; i += 8 {
 				v := r.next()
@@ -136,7 +141,7 @@ func c47GenKeys(r *c47Rand, n int, hostile bool) []common.Hash {
 }
 
 func c47GenStorage(r *c47Rand, n int, hostile bool) *c47Storage {
-	st := &c47Storage{keys: c47GenKeys(r, n, hostile)}
+	st := &c47Storage{keys: c47GenKeys(r, n, hostile, 0)}
 	kvm := map[string][]byte{}
 	for _, k := range st.keys {
 		l := 1 + r.intn(32)
@@ -183,7 +188,7 @@ func c47BuildState(sh c47Shape) (*c47State, error) {
 		}
 		codePool = append(codePool, c)
 	}
-	keys := c47GenKeys(r, sh.nAccounts, sh.hostile)
+	keys := c47GenKeys(r, sh.nAccounts, sh.hostile, 1)
 	akv := map[string][]byte{}
 	for _, k := range keys {
 		a := &c47Account{hash: k, nonce: r.next() % 100, balance: new(big.Int).SetUint64(r.next() >> uint(r.intn(64)))}
@@ -592,6 +597,9 @@ func (p *c47Peer) onAccounts(t *testPeer, id uint64, root, origin, limit common.
 		proofs = proof.List()
 	}
 	p.mu.Unlock()
+	if len(keys) == 0 && len(proofs) == 0 {
+		fmt.Printf("C47-DEBUG %s: unintended empty account reply bh=%s origin=%x limit=%x cap=%d\n", t.id, c47BhNames[bh], origin, limit, cap)
+	}
 	err := t.remote.OnAccounts(t, id, keys, vals, proofs)
 	p.done(kAcc, err, tampered)
 	return nil
@@ -689,6 +697,9 @@ func (p *c47Peer) onStorage(t *testPeer, id uint64, root common.Hash, accounts [
 		}
 	}
 	p.mu.Unlock()
+	if len(hashes) == 0 && len(proofs) == 0 {
+		fmt.Printf("C47-DEBUG %s: unintended empty storage reply bh=%s accounts=%x origin=%x limit=%x max=%d\n", t.id, c47BhNames[bh], accounts, origin, limit, max)
+	}
 	err := t.remote.OnStorage(t, id, hashes, slots, proofs)
 	p.done(kSto, err, tampered)
 	return nil
@@ -735,6 +746,9 @@ func (p *c47Peer) onCodes(t *testPeer, id uint64, hashes []common.Hash, max int)
 		codes = append(codes, []byte{0xde, 0xad, byte(r)})
 		tampered = true
 	}
+	if len(codes) == 0 {
+		fmt.Printf("C47-DEBUG %s: unintended empty code reply bh=%s hashes=%x\n", t.id, c47BhNames[bh], hashes)
+	}
 	err := t.remote.OnByteCodes(t, id, codes)
 	p.done(kCode, err, tampered)
 	return nil
@@ -763,11 +777,16 @@ func (p *c47Peer) onTrieNodes(t *testPeer, id uint64, root common.Hash, paths []
 		default:
 			tr := t.storageTries[common.BytesToHash(pathset[0])]
 			if tr == nil {
+				a := p.run.state.byHash[common.BytesToHash(pathset[0])]
+				fmt.Printf("C47-DEBUG no storage trie for %x (account known=%v hasStorage=%v)\n", pathset[0], a != nil, a != nil && a.st != nil)
 				continue
 			}
 			for _, path := range pathset[1:] {
-				if blob, _, err := tr.GetNode(path); err == nil {
+				blob, _, err := tr.GetNode(path)
+				if err == nil {
 					nodes = append(nodes, blob)
+				} else {
+					fmt.Printf("C47-DEBUG GetNode(%x,%x): %v\n", pathset[0], path, err)
 				}
 			}
 		}
@@ -797,6 +816,9 @@ func (p *c47Peer) onTrieNodes(t *testPeer, id uint64, root common.Hash, paths []
 			nodes = append(nodes, c47Flip(nodes[0], r>>8))
 			tampered = true
 		}
+	}
+	if len(nodes) == 0 {
+		fmt.Printf("C47-DEBUG %s: unintended empty trie node reply bh=%s paths=%x\n", t.id, c47BhNames[bh], paths)
 	}
 	err := t.remote.OnTrieNodes(t, id, nodes)
 	p.done(kNode, err, tampered)
